@@ -18,6 +18,7 @@ import (
 	"github.com/btcsuite/btcwallet/snacl"
 	"github.com/btcsuite/btcwallet/waddrmgr"
 	"github.com/btcsuite/btcwallet/walletdb"
+	"verifharness/faultdb"
 )
 
 var addrNS = []byte("waddrmgr")
@@ -41,15 +42,16 @@ func init() {
 }
 
 type addrWorld struct {
-	seed     int64
-	db       walletdb.DB
-	mgr      *waddrmgr.Manager
-	known    []btcutil.Address   // addresses on disk when the world was opened
-	knownSc  []waddrmgr.KeyScope // the scope each known address was enumerated from
-	extra    []btcutil.Address   // addresses the target operation creates (from the fault-free twin)
-	privCur  []byte              // private passphrase currently believed valid for the running manager
-	unlocked bool
-	afterOp  func()
+	seed      int64
+	db        walletdb.DB
+	mgr       *waddrmgr.Manager
+	known     []btcutil.Address   // addresses on disk when the world was opened
+	knownSc   []waddrmgr.KeyScope // the scope each known address was enumerated from
+	extra     []btcutil.Address   // addresses the target operation creates (from the fault-free twin)
+	privCur   []byte              // private passphrase currently believed valid for the running manager
+	unlocked  bool
+	afterOp   func()
+	failAfter bool
 }
 
 func (w *addrWorld) kind() string { return "addr" }
@@ -123,6 +125,11 @@ func (w *addrWorld) update(f func(ns walletdb.ReadWriteBucket) error) error {
 		err := f(tx.ReadWriteBucket(addrNS))
 		if w.afterOp != nil {
 			w.afterOp() // still inside the transaction, before commit / rollback
+		}
+		if err == nil && w.failAfter {
+			// "a later write of the same wallet-level operation fails": the transaction is rolled back
+			// although this manager operation returned nil
+			return faultdb.ErrInjected
 		}
 		return err
 	})
@@ -464,7 +471,8 @@ func (w *addrWorld) candidates() []btcutil.Address {
 	return append(append([]btcutil.Address{}, w.known...), w.extra...)
 }
 
-func (w *addrWorld) observeMgr(m *waddrmgr.Manager, dryRun bool) []string {
+func (w *addrWorld) observeMgr(m *waddrmgr.Manager, fresh bool) []string {
+	dryRun := fresh
 	var out []string
 	st := m.SyncedTo()
 	out = append(out, fmt.Sprintf("synced=%d:%s", st.Height, st.Hash.String()[:8]))
@@ -521,7 +529,13 @@ func (w *addrWorld) observeMgr(m *waddrmgr.Manager, dryRun bool) []string {
 				}
 			}
 		}
-		for _, a := range w.candidates() {
+		cands := w.candidates()
+		if fresh {
+			// a reopened manager has no cache: what it says about the known addresses is the `addrs` listing
+			// above; only the addresses the operation creates are looked up one by one
+			cands = w.extra
+		}
+		for _, a := range cands {
 			k := a.EncodeAddress()
 			for _, s := range sortedScopes(m) {
 				sc := s.Scope()
